@@ -5,4 +5,5 @@ import (
 	_ "github.com/saucelabs/forwarder/verifharness/c01"
 	_ "github.com/saucelabs/forwarder/verifharness/c02"
 	_ "github.com/saucelabs/forwarder/verifharness/c16"
+	_ "github.com/saucelabs/forwarder/verifharness/c17"
 )
